@@ -200,8 +200,8 @@ def normalise_midi_notes(notes):
 @st.composite
 def midi_spec(draw, tier):
     cap = 24 if tier == "quick" else 80
-    size_class = draw(st.sampled_from([2, 5, 10, 10, cap]))
-    n = draw(st.integers(1, size_class))
+    size_class = draw(st.sampled_from([2, 6, 12, 16, cap, cap]))
+    n = draw(st.integers(max(1, size_class // 2), size_class))
     ppq = draw(st.sampled_from([4, 12, 24, 96, 480, 480]))
     unit = draw(st.sampled_from([u for u in (ppq // 4, ppq // 3, ppq // 2, ppq) if u >= 1 and ppq % u == 0]))
     ntracks = draw(st.sampled_from([1, 1, 2, 3]))
@@ -209,10 +209,16 @@ def midi_spec(draw, tier):
     allow_zero = draw(st.integers(0, 2)) == 0
     span = draw(st.sampled_from([1, 3, max(2, n), 2 * n + 2]))
     durs = [1, 1, 2, 2, 3, 4, 4, 6, 8] + ([0, 0, 0] if allow_zero else [])
+    # octave doublings (the same pitch class on several channels at once) are typical of real files
+    if draw(st.integers(0, 2)) == 0:
+        base = draw(st.integers(21, 32))
+        pitch = st.integers(0, 6).map(lambda k: base + 12 * k)
+    else:
+        pitch = st.integers(21, 108)
     note = st.tuples(
         st.integers(0, span).map(lambda k: k * unit),
         st.sampled_from(durs).map(lambda k: k * unit),
-        st.integers(21, 108),
+        pitch,
         st.integers(0, ntracks - 1),
         st.integers(0, nch - 1),
     )
